@@ -280,6 +280,9 @@ def resolve_unwindset(u, loops, tier, defs):
                 if m:
                     env[m.group(1)] = int(m.group(2))
             n = eval(n, {}, env)
+        if "recursion" in W:  # recursive function: cbmc takes the function name as the loop id of its recursion unwinding
+            items.append("%s:%d" % (W["recursion"], n))
+            continue
         if "loop" in W:       # literal loop name (library/stub functions), may be a pattern
             names = [x for x in allnames if re.fullmatch(W["loop"], x)]
             if not names:
